@@ -3,5 +3,6 @@ CONSTANTS
   Vary = {"sel", "sh", "shk"}
   Fns = {"Println"}
   Shs = {"-", "toUpper"}
+  ScopeAware = FALSE
 INVARIANTS TypeOK Confluent ImportSound Export
 PROPERTIES Stable Terminates
